@@ -449,6 +449,8 @@ def evaluate__avg(self: XPathFunction, context: ta.ContextType = None) \
             if isinstance(context, XPathSchemaContext):
                 return []
             raise self.error('FORG0006', err)
+        except OverflowError as err:
+            raise self.error('FODT0002', err) from None
     elif all(isinstance(x, int) for x in values):
         result = sum(cast(list[int], values)) / Decimal(len(values))
         return int(result) if result % 1 == 0 else result
